@@ -55,8 +55,32 @@ Strings == {StrD(<<97>>, FALSE), StrD(<<97>>, TRUE), StrD(<<97, 98>>, FALSE), St
             StrD(<<200, 97>>, TRUE)}
 
 Small == {IntD(FALSE, <<1>>, 10), IntD(FALSE, <<2>>, 10), IntD(TRUE, <<1>>, 10), IntD(FALSE, <<1, 0, 0>>, 16)}
+(* ---- packed statements: reservations and constants at every sub-unit position, in front of / inside / behind DUP ----- *)
+RECURSIVE Times(_, _)
+Times(a, n) == IF n = 0 THEN <<>> ELSE <<a>> \o Times(a, n - 1)
+PackedLists(sname) ==
+  LET st == StmtTable[sname]
+      c1 == IntD(FALSE, <<1>>, 10)
+      c2 == IntD(FALSE, <<7>>, 10)
+      shapes(x, y) == {Times(x, p) \o <<DupD(n, Times(y, b))>> \o Times(x, q) : p \in 0..3, n \in 1..5, b \in 1..3, q \in 0..1}
+  IN shapes(ResD, ResD) \cup shapes(c1, c2) \cup shapes(ResD, c2) \cup shapes(c1, ResD)
+     \cup {<<DupD(2, <<ResD, DupD(n, <<ResD>>)>>)>> : n \in 1..3} \cup {<<DupD(2, <<c1, DupD(n, <<c2>>), c1>>)>> : n \in 1..3}
+     \cup {<<a>> : a \in (IF st.ebits = 4 THEN {IntD(TRUE, <<8>>, 10), IntD(TRUE, <<9>>, 10), IntD(FALSE, <<1, 5>>, 10), IntD(FALSE, <<1, 6>>, 10),
+                                                 IntD(TRUE, <<1>>, 10), FltD(0, 3, 0 - 1)}
+                           ELSE {IntD(TRUE, <<8, 0>>, 16), IntD(TRUE, <<8, 1>>, 16), IntD(FALSE, <<15, 15>>, 16), IntD(FALSE, <<1, 0, 0>>, 16),
+                                 StrD(<<97, 98, 99>>, FALSE), StrD(<<97>>, TRUE), FltD(0, 3, 0 - 1)})}
+     \cup {Times(ResD, n) : n \in 1..9} \cup {Times(c2, n) : n \in 1..9}
+AvrDataLists ==
+  LET items == {IntD(FALSE, <<1>>, 10), IntD(FALSE, <<1, 2, 3, 4>>, 16), IntD(TRUE, <<1>>, 10), IntD(FALSE, <<15, 15>>, 16),
+                StrD(<<97, 98, 99>>, FALSE), StrD(<<97, 98>>, FALSE), StrD(<<99>>, FALSE), StrD(<<97, 98, 99, 100, 101>>, FALSE)}
+  IN {<<a>> : a \in items \cup {IntD(FALSE, <<1, 0, 0, 0, 0>>, 16), IntD(TRUE, <<8, 0, 0, 1>>, 16), IntD(FALSE, <<15, 15, 15, 15>>, 16),
+                                 IntD(TRUE, <<8, 0, 0, 0>>, 16), IntD(TRUE, <<8, 1>>, 16), IntD(FALSE, <<1, 0, 0>>, 16), FltD(0, 3, 0 - 1)}}
+     \cup {<<a, b>> : a \in items, b \in items} \cup {<<a, b, c>> : a \in {StrD(<<99>>, FALSE), StrD(<<97, 98, 99>>, FALSE), IntD(FALSE, <<1>>, 10)},
+                                                              b \in items, c \in {IntD(FALSE, <<1, 2, 3, 4>>, 16), StrD(<<99>>, FALSE)}}
+
 \* argument lists per statement
 ArgLists(sname) ==
+  IF StmtTable[sname].fam = "packed" THEN PackedLists(sname) ELSE IF StmtTable[sname].fam = "avrdata" THEN AvrDataLists ELSE
   LET st == StmtTable[sname]
       ints == IntsFor(st.w)
       flts == IF st.fmt = "none" THEN {FltD(0, 3, 0 - 1)} ELSE FloatsFor(st.fmt)
@@ -97,18 +121,20 @@ SweepStrings == {StrD(<<65, 66>>, FALSE), StrD(<<88, 89, 90, 97>>, FALSE), StrD(
 \* every string argument with repeat counts 1..3 in the family's own notation, alone and next to other arguments
 StrSweep(sname) ==
   LET st == StmtTable[sname]
-      reps(a) == IF st.fam = "intel" THEN {<<a>>} \cup {<<DupD(n, <<a>>)>> : n \in 1..3} \cup {<<DupD(2, <<a, IntD(FALSE, <<1>>, 10)>>)>>}
+      reps(a) == IF st.fam \in {"intel", "packed"} THEN {<<a>>} \cup {<<DupD(n, <<a>>)>> : n \in 1..3} \cup {<<DupD(2, <<a, IntD(FALSE, <<1>>, 10)>>)>>}
                  ELSE IF st.fam \in {"moto", "m68"} THEN {<<a>>} \cup {<<Rep(a, n)>> : n \in 2..3} \cup {<<Rep(a, 2), a>>}
                  ELSE {<<a>>}
-  IN IF st.ty = "flt" \/ st.fam = "ti" \/ st.w > 8 THEN {} ELSE UNION {reps(a) : a \in SweepStrings}
+  IN IF st.ty = "flt" \/ st.fam = "ti" \/ st.w > 8 \/ (st.fam = "packed" /\ st.ebits # 8) THEN {} ELSE UNION {reps(a) : a \in SweepStrings}
 
 ModesFor(sname) ==
   LET st == StmtTable[sname]
-      M(b, p, o, c, l, c2) == [big |-> b, padding |-> p, pcodd |-> o, cs |-> c, lg |-> l, sweep |-> FALSE, cs2 |-> c2]
+      M(b, p, o, c, l, c2) == [big |-> b, padding |-> p, pcodd |-> o, cs |-> c, lg |-> l, sweep |-> FALSE, cs2 |-> c2, packing |-> FALSE]
   IN
   \* lg: list granularity of the target that assembles the statement (2: 680x0, code is kept in words; 1: 68xx, in bytes)
   \* sweep = TRUE: the string x repeat x CHARSET sweep; cs2 # <<>>: the statement is assembled twice, cs2 in between
-  CASE st.fam = "moto" -> {M(TRUE, p, o, Id, 2, <<>>) : p \in BOOLEAN, o \in BOOLEAN}
+  CASE st.fam = "packed" -> {M(FALSE, FALSE, FALSE, Id, 1, <<>>)}
+    [] st.fam = "avrdata" -> {[M(FALSE, FALSE, FALSE, Id, 1, <<>>) EXCEPT !.packing = p] : p \in BOOLEAN}
+    [] st.fam = "moto" -> {M(TRUE, p, o, Id, 2, <<>>) : p \in BOOLEAN, o \in BOOLEAN}
                           \cup {M(TRUE, TRUE, FALSE, c, 2, <<>>) : c \in {Up, Hi}}
                           \cup {M(TRUE, FALSE, TRUE, Id, 1, <<>>)}
     [] st.fam = "intel" -> {M(b, FALSE, o, Id, 1, <<>>) : b \in BOOLEAN, o \in BOOLEAN}
@@ -116,7 +142,7 @@ ModesFor(sname) ==
     [] OTHER -> {M(st.order = "big", FALSE, o, c, 1, <<>>) : o \in BOOLEAN, c \in {Id, Up}}
 SweepModesFor(sname) ==
   LET st == StmtTable[sname]
-      S(b, c, l, c2) == [big |-> b, padding |-> FALSE, pcodd |-> FALSE, cs |-> c, lg |-> l, sweep |-> TRUE, cs2 |-> c2]
+      S(b, c, l, c2) == [big |-> b, padding |-> FALSE, pcodd |-> FALSE, cs |-> c, lg |-> l, sweep |-> TRUE, cs2 |-> c2, packing |-> FALSE]
       bigs == IF st.order = "mode" THEN BOOLEAN ELSE {st.order = "big"}
       lgs == IF st.fam = "moto" THEN {1, 2} ELSE {1}
   IN IF StrSweep(sname) = {} THEN {}
@@ -142,13 +168,14 @@ St == StmtTable[sname]
 Vals == [i \in 1..Len(args) |-> ArgVal(args[i])]
 L == IF md.cs2 = <<>> THEN Layout(sname, Vals, md) ELSE LayoutTwice(sname, Vals, md, md.cs2)
 Big == IF St.order = "mode" THEN md.big ELSE St.order = "big"
+Plain == St.fam \notin {"packed", "avrdata"}
 
 (* ---- laws ----------------------------------------------------------------------------------------------------- *)
 \* the documented range as an interval, independent of the shift formulation in InRange
 Lower(w) == Neg(Shl(One, 8 * w - 1))
 Upper(w) == Sub(Shl(One, 8 * w), One)
 RangeRuleIsTheInterval ==
-  (args # None /\ Len(args) = 1 /\ args[1].k = "int" /\ "rep" \notin DOMAIN args[1] /\ St.ty \in {"int", "both"} /\ St.w < 8) =>
+  (args # None /\ Plain /\ Len(args) = 1 /\ args[1].k = "int" /\ "rep" \notin DOMAIN args[1] /\ St.ty \in {"int", "both"} /\ St.w < 8) =>
      LET v == Vals[1].v IN
      /\ InRange(v, St.w) <=> (~LtS(v, Lower(St.w)) /\ ~LtS(Upper(St.w), v))
      /\ (L.k = "error") <=> ~InRange(v, St.w)
@@ -156,7 +183,7 @@ RangeRuleIsTheInterval ==
 RECURSIVE BytesToLimbsBE(_, _)
 BytesToLimbsBE(bs, acc) == IF bs = <<>> THEN acc ELSE BytesToLimbsBE(Tail(bs), Add(Shl(acc, 8), FromNat(Head(bs))))
 IntegerBytesDecodeBack ==
-  (args # None /\ Len(args) = 1 /\ args[1].k = "int" /\ "rep" \notin DOMAIN args[1] /\ St.ty \in {"int", "both"} /\ L.k = "data"
+  (args # None /\ Plain /\ Len(args) = 1 /\ args[1].k = "int" /\ "rep" \notin DOMAIN args[1] /\ St.ty \in {"int", "both"} /\ L.k = "data"
      /\ St.fam # "ti") =>
      LET be == IF Big THEN L.b ELSE Reverse(L.b)
          v == Vals[1].v
@@ -175,17 +202,44 @@ CountElems(a) == (IF "rep" \in DOMAIN a THEN a.rep ELSE 1) *
 RECURSIVE SumElems(_)
 SumElems(as) == IF as = <<>> THEN 0 ELSE CountElems(Head(as)) + SumElems(Tail(as))
 LengthIsElementsTimesWidth ==
-  (args # None /\ L.k \in {"data", "reserve"}) =>
+  (args # None /\ Plain /\ L.k \in {"data", "reserve"}) =>
      LET unit == IF St.fam = "ti" /\ St.w = 1 THEN 2 ELSE St.w
          n == SumElems(Vals) * unit * (IF md.cs2 = <<>> THEN 1 ELSE 2)     \* assembled twice around a CHARSET change
      IN IF L.k = "data" THEN Len(L.b) = n ELSE L.n = n
 
 PaddingRule ==
-  (args # None /\ L.k \in {"data", "reserve"}) => (L.pad = 1 <=> (md.padding /\ md.pcodd /\ St.w >= 2 /\ St.fam = "moto"))
+  (args # None /\ Plain /\ L.k \in {"data", "reserve"}) => (L.pad = 1 <=> (md.padding /\ md.pcodd /\ St.w >= 2 /\ St.fam = "moto"))
 
 RECURSIVE Kinds(_)
 Kinds(as) == IF as = <<>> THEN {} ELSE (IF Head(as).k = "dup" THEN Kinds(Head(as).args) ELSE {Head(as).k = "res"}) \cup Kinds(Tail(as))
 MixingIsAnError == (args # None /\ Kinds(Vals) = {TRUE, FALSE}) => L.k \in {"error", "unspec"}
+
+(* ---- packed layouts --------------------------------------------------------------------------------------------------- *)
+RECURSIVE NElems(_)
+NElems(as) == IF as = <<>> THEN 0
+              ELSE (IF Head(as).k = "dup" THEN Head(as).n * NElems(Head(as).args)
+                    ELSE IF Head(as).k = "str" /\ ~(Head(as).sq /\ Len(Head(as).cs) = 1) THEN Len(Head(as).cs) ELSE 1) + NElems(Tail(as))
+\* "advance the address by the documented amount": ceil(elements / elements-per-unit) units, whatever the DUP structure
+PackedAdvance ==
+  (args # None /\ St.fam = "packed" /\ md.cs2 = <<>> /\ L.k \in {"data", "reserve"}) =>
+     LET E == (8 * St.unit) \div St.ebits
+         units == (NElems(Vals) + E - 1) \div E
+     IN IF L.k = "data" THEN Len(L.b) = units * St.unit ELSE L.n = units * St.unit
+\* element i sits in unit i \div E at bit position ebits * (i % E), least significant first
+PackedPositions ==
+  (args # None /\ St.fam = "packed" /\ md.cs2 = <<>> /\ L.k = "data") =>
+     LET es == PElems(St, Vals, md)
+         E == (8 * St.unit) \div St.ebits
+         unitval(u) == IF St.unit = 1 THEN L.b[u + 1] ELSE L.b[2 * u + 1] + 256 * L.b[2 * u + 2]
+     IN \A i \in 0..(Len(es) - 1) : (unitval(i \div E) \div Pow2(St.ebits * (i % E))) % Pow2(St.ebits) = es[i + 1]
+\* AVR DATA keeps every byte: the string characters appear in order, none is lost
+RECURSIVE AvrChars(_)
+AvrChars(as) == IF as = <<>> THEN <<>> ELSE (IF Head(as).k = "str" THEN MapStr(md.cs, Head(as).cs) ELSE <<>>) \o AvrChars(Tail(as))
+RECURSIVE IsSubseq(_, _)
+IsSubseq(x, y) == IF x = <<>> THEN TRUE ELSE IF y = <<>> THEN FALSE
+                  ELSE IF Head(x) = Head(y) THEN IsSubseq(Tail(x), Tail(y)) ELSE IsSubseq(x, Tail(y))
+AvrDataKeepsEveryCharacter ==
+  (args # None /\ St.fam = "avrdata" /\ md.cs2 = <<>> /\ L.k = "data") => Len(L.b) % 2 = 0 /\ IsSubseq(AvrChars(Vals), L.b)
 
 (* ---- strings, CHARSET and repetition ------------------------------------------------------------------------------ *)
 \* the lazy lookup used by Layout is the function value
@@ -210,7 +264,7 @@ OnceTranslated(a) ==
   ELSE CharElems(a.cs, St.w, Big)
 \* every copy is the string translated exactly once
 EveryCopyTranslatedOnce ==
-  (args # None /\ md.sweep /\ md.cs2 = <<>> /\ Len(args) = 1 /\ L.k = "data") =>
+  (args # None /\ Plain /\ md.sweep /\ md.cs2 = <<>> /\ Len(args) = 1 /\ L.k = "data") =>
      LET a == args[1] IN
      IF a.k = "str" /\ ~(a.sq /\ Len(a.cs) > 2 /\ Len(a.cs) <= St.w)
      THEN L.b = RepeatSeq(OnceTranslated(a), IF "rep" \in DOMAIN a THEN a.rep ELSE 1)
